@@ -392,3 +392,43 @@ func VfC07_ConcurrentCallers() {
 	}
 	close(u.quit)
 }
+
+// VfC20_RedisUpstreamConns: whatever the Redis upstream counts as backend connections (total,
+// destroyed, active) balances once it is quiescent: after requests that open a connection, a
+// backend dropping it, the whole host list being replaced (all connections are reset) and the
+// upstream being stopped, the active gauge is zero and total == destroyed.
+func VfC20_RedisUpstreamConns() {
+	nd.ConcreteClock(true)
+	srv := vfNewServer()
+	srv.setUp(true)
+	u, _ := vfNewUpstream(nil)
+	served := false
+	go func() { u.Serve(); served = true }()
+	nd.PanicLabel("redis-upstream-conns")
+	steps := nd.Param("steps", 2)
+	for s := 0; s < steps; s++ {
+		switch nd.Concrete(nd.Choice("event", 3)) {
+		case 0:
+			req := newSimpleRequest(newStringArray("ping"))
+			u.MakeRequestToHost(srv.addr, req)
+			nd.Quiesce()
+			nd.Assert(vfDone(req.done), "the request is answered")
+			nd.Cover("connection-used")
+		case 1:
+			srv.dropConns()
+			nd.Quiesce()
+		case 2:
+			u.OnHostReplace([]*host.Host{hostNew(srv.addr)})
+			nd.Quiesce()
+			nd.Cover("host-list-replaced")
+		}
+	}
+	stopped := false
+	go func() { u.Stop(); stopped = true }()
+	nd.Quiesce()
+	nd.Assert(stopped && served, "the upstream stops")
+	st := u.stats
+	nd.Assert(st.CxActive.Value() == 0, "upstream active-connection gauge is zero at quiescence")
+	nd.Assert(st.CxTotal.Value() == st.CxDestroyTotal.Value(), "upstream total connections = destroyed connections at quiescence")
+	srv.setUp(false)
+}
